@@ -13,10 +13,13 @@
 //                                 OPMAP / OPMAT / COLROWDIFF records in the format of h_ed (kinds cdag, c), taken through
 //                                 getCreationOperator / getAnnihilationOperator
 //                                 ENDHISTORY <k>
-//   single               operators computed one by one: SINGLE, then OPMAP / OPMAT with kinds cdag1, c1 for every index
+//   single [<i> <j> ...]  operators computed one by one: SINGLE, then OPMAP / OPMAT with kinds cdag1, c1 for every index (or for the listed ones)
+//   threads              THREADS <omp_get_max_threads()> : the number of OpenMP threads a parallel region of the library would get
+// With the command-line arguments `--out <file>` all records go to <file> instead of stdout (large models: tens of MB).
 // The model part answers  BUILT diag  followed by the records N, INFO, HPOLY, NSYM, NBLOCKS, BLOCK, VEC, EIG of h_ed (same formats),
 // or  ERROR <text>.  All floating-point output is hex floats; one record per line.
 #include "ed_common.h"
+#include <omp.h>
 using namespace Pomerol;
 
 static std::vector<std::string> toks(const std::string& line) {
@@ -90,6 +93,7 @@ static void dump_model(pv::ED& e) {
 
 int main(int argc, char* argv[]) {
     boost::mpi::environment env(argc, argv);
+    if (argc > 2 && std::string(argv[1]) == "--out" && !freopen(argv[2], "w", stdout)) { perror("freopen"); return 2; }
     pv::Quiet quiet;
     pv::ED* ed = 0;
     std::string line;
@@ -148,12 +152,17 @@ int main(int argc, char* argv[]) {
             printf("ENDHISTORY %d\n", k);
         } else if (c == "single") {
             printf("SINGLE\n");
+            std::set<ParticleIndex> only;
+            for (size_t p = 1; p < t.size(); ++p) only.insert(ParticleIndex(atol(t[p].c_str())));
             for (ParticleIndex i = 0; i < ed->Idx->getIndexSize(); ++i) {
+                if (!only.empty() && !only.count(i)) continue;
                 CreationOperator cx(*ed->Idx, *ed->S, *ed->H, i); cx.prepare(); cx.compute();
                 AnnihilationOperator cc(*ed->Idx, *ed->S, *ed->H, i); cc.prepare(); cc.compute();
                 dump_op("cdag1", i, cx);
                 dump_op("c1", i, cc);
             }
+        } else if (c == "threads") {
+            printf("THREADS %d\n", omp_get_max_threads());
         } else {
             printf("UNKNOWN %s\n", c.c_str());
         }
